@@ -53,24 +53,26 @@ FILES = [
 
 # (class, member): member is a property name (its setter is the mutator) or a method name
 TARGETS = [
-    ('CSSStyleSheet', ['cssText', 'encoding', 'insertRule', 'deleteRule', 'add']),
+    ('CSSStyleSheet', ['cssText', 'encoding', 'insertRule', 'deleteRule', 'add', 'cssRules',
+                       '_setCssTextWithEncodingOverride']),     # the last one is INTERNAL, see below
+    ('CSSRule', ['atkeyword']),
     ('_Namespaces', ['__setitem__', '__delitem__']),
     ('CSSCharsetRule', ['cssText', 'encoding']),
     ('CSSComment', ['cssText']),
     ('CSSFontFaceRule', ['cssText', 'style']),
     ('CSSImportRule', ['cssText', 'href', 'media', 'name']),
-    ('CSSMediaRule', ['cssText', 'media', 'name', 'insertRule', 'deleteRule', 'add']),
+    ('CSSMediaRule', ['cssText', 'media', 'name', 'insertRule', 'deleteRule', 'add', 'cssRules']),
     ('CSSNamespaceRule', ['cssText', 'namespaceURI', 'prefix']),
     ('CSSPageRule', ['cssText', 'selectorText', 'style', 'insertRule', 'deleteRule', 'add', '__setitem__',
-                     '__delitem__']),
-    ('MarginRule', ['cssText', 'margin', 'style']),
+                     '__delitem__', 'cssRules']),
+    ('MarginRule', ['cssText', 'margin', 'style', 'atkeyword']),     # atkeyword = margin (marginrule.py:122)
     ('CSSStyleRule', ['cssText', 'selectorText', 'selectorList', 'style']),
     ('CSSUnknownRule', ['cssText']),
     ('CSSVariablesRule', ['cssText', 'variables']),
     ('CSSVariablesDeclaration', ['cssText', 'setVariable', 'removeVariable', '__setitem__', '__delitem__']),
     ('CSSStyleDeclaration', ['cssText', 'setProperty', 'removeProperty', '__setitem__', '__delitem__', '_setP',
                              '_delP']),
-    ('Property', ['cssText', 'name', 'propertyValue', 'value', 'priority']),
+    ('Property', ['cssText', 'name', 'propertyValue', 'value', 'priority', 'cssValue']),
     ('PropertyValue', ['cssText']),
     ('Value', ['cssText']),
     ('ColorValue', ['cssText']),
@@ -81,14 +83,18 @@ TARGETS = [
     ('CSSVariable', ['cssText']),
     ('MSValue', ['cssText']),
     ('Selector', ['selectorText']),
-    ('SelectorList', ['selectorText', 'appendSelector', 'append', '__setitem__']),
+    ('SelectorList', ['selectorText', 'appendSelector', 'append', '__setitem__', '__delitem__']),
     ('MediaList', ['mediaText', 'appendMedium', 'append', 'deleteMedium', '__setitem__', '__delitem__']),
     ('MediaQuery', ['mediaText', 'mediaType']),
 ]
 
+# parser-internal helpers that are extracted, run and compared like the public mutators but are listed apart
+# (`Gen.C11.internalScripts`): the property speaks of PUBLIC mutators, so they are not under T11.2 / T11.3
+INTERNAL = {'CSSStyleSheet._setCssTextWithEncodingOverride'}
+
 # member names that have an extracted script in some class: a call of such a member on a child object is emitted as
 # `call f` (the ownership-tree theorems then cover it); other child helpers stay `mayRaise; mutate f` (contract assumed)
-TARGET_MEMBERS = {m for _c, ms in TARGETS for m in ms}
+TARGET_MEMBERS = {m for _c, ms in TARGETS for m in ms if '%s.%s' % (_c, m) not in INTERNAL}
 
 # helper methods of Base/Base2/_NewBase that only read `self` (checked by reading util.py:140-420)
 PURE_SELF = {
@@ -117,6 +123,7 @@ CHILD_MUTATORS = {'insertRule', 'deleteRule', 'add', 'setProperty', 'removePrope
 # helper) -> why the contract "raises with the child unchanged, or changes the child" holds there. A helper dependency
 # that is not listed here ends up in `helperDepsUnjustified` and breaks the theorem `helper_deps_justified`.
 ASSUMED_HELPERS = {
+    ('CSSStyleSheet._setCssTextWithEncodingOverride', '_replaceNamespaceURI'): 'see CSSStyleSheet.cssText (inlined)',
     ('CSSStyleSheet.cssText', '_replaceNamespaceURI'):
         'cssnamespacerule.py:281-292 assigns _namespaceURI and replaces one item of the rule\'s own seq, no check, no '
         'log call: it cannot raise; the receivers are rules of the NEW rule list (cssstylesheet.py:239-241, '
@@ -2182,8 +2189,17 @@ def generate(repo):
                                        'snapshots argument objects on the implementation)'
 
     lines.append(',\n'.join('  ⟨"%s", %s, %s⟩' % (r['name'], '[' + ', '.join(str(i) for i in r['observable']) + ']',
-                                                ident(r['name'])) for r in recs))
+                                                ident(r['name'])) for r in recs if r['name'] not in INTERNAL))
     lines.append(']\n')
+    lines.append('/-- parser-internal helpers (not public mutators): extracted and tied like the others, listed apart -/')
+    lines.append('def internalScripts : List Script := [')
+    lines.append(',\n'.join('  ⟨"%s", %s, %s⟩' % (r['name'], '[' + ', '.join(str(i) for i in r['observable']) + ']',
+                                                ident(r['name'])) for r in recs if r['name'] in INTERNAL))
+    lines.append(']\n')
+    # the driver indexes `scripts ++ internalScripts`: keep the records in that order
+    recs.sort(key=lambda r: r['name'] in INTERNAL)
+    for r in recs:
+        r['internal'] = r['name'] in INTERNAL
     lines.append('/-- the guarded variants: same mutators, the listed statements assumed not to raise -/')
     lines.append('def scriptsGuarded : List Script := [')
     gl = []
